@@ -46,6 +46,10 @@ Inductive case :=
    (None: no round trip), [ur] = the upstream's answer, [cl] = what the client got;
    [wire] = real sockets and fabio's http.Transport (observed by the upstream server) *)
 | CFwd (wire : bool) (o : route_opts) (q : request) (up : option upstream) (ur cl : response)
+(* as CFwd over real sockets, the upstream answering with the informational (1xx) responses
+   [iu] before [ur]; the client saw the informational responses [ic] before [cl] *)
+| CFwd1xx (o : route_opts) (q : request) (up : option upstream) (iu : list response) (ur : response)
+          (ic : list response) (cl : response)
 (* no route: configured status, page, whether any upstream was contacted, client's response *)
 | CNoRoute (status : Z) (html : str) (contacted : bool) (cl : response).
 
@@ -57,6 +61,34 @@ Definition obs_eqb (a b : str * str * str * bool * str * str) : bool :=
   let '(a1, a2, a3, a4, a5, a6) := a in
   let '(b1, b2, b3, b4, b5, b6) := b in
   beq a1 b1 && beq a2 b2 && beq a3 b3 && Bool.eqb a4 b4 && beq a5 b5 && beq a6 b6.
+
+(* a routed request; [same_x]/[spec_x]: further observables of group B (informational responses) *)
+Definition check_fwd (wire : bool) (o : route_opts) (q : request) (up : option upstream)
+           (ur cl : response) (same_x spec_x : bool) : N :=
+      let drop := if wire then wire_resp_drop else [] in
+      (* two groups of observables, judged separately so that a known defect in one (or its
+         repair) never hides or excuses a difference in the other:
+         A = the request target (regions 1, 2); B = method, Host, headers, body, response (region 3) *)
+      match forward wire o q, up with
+      | Ok mu, Some u =>
+          let sameA := beq (up_target u) (up_target mu) in
+          let specA := beq (up_target u) (spec_target o (rq_target q)) in
+          let regionA := if region_strip_encoding o (rq_target q) then Some 1
+                         else if region_invalid_byte o (rq_target q) then Some 2 else None in
+          let vA := verdict sameA specA regionA true in
+          let no_target x := {| up_method := up_method x; up_target := []; up_host := up_host x;
+                                up_headers := up_headers x; up_body := up_body x |} in
+          let sameB := upstream_eqb (proj_up (no_target u)) (proj_up (no_target mu))
+                       && response_eqb (proj_resp drop cl) (proj_resp drop (respond ur)) && same_x in
+          let specB := spec_forward_rest o q u && spec_response drop ur cl && spec_x in
+          let regionB := if wire && region_gzip_added q then Some 3 else None in
+          let vB := verdict sameB specB regionB true in
+          let bad v := (2 <=? v) && (v <=? 4) in
+          if bad vA then vA else if bad vB then vB
+          else if 100 <=? vA then vA else if 100 <=? vB then vB else v_agree
+      | Ok _, None => v_disagree_spec_fails   (* a routed request must reach its upstream *)
+      | _, _ => v_disagree   (* the harness only emits requests net/http accepted *)
+      end.
 
 Definition check_case (c : case) : N :=
   match c with
@@ -86,31 +118,14 @@ Definition check_case (c : case) : N :=
       (* spec: whatever EscapedPath returns decodes to Path *)
       let spec := out_is (unescape ep) path in
       verdict same spec None (nonempty rawpath)
-  | CFwd wire o q up ur cl =>
-      let drop := if wire then wire_resp_drop else [] in
-      (* two groups of observables, judged separately so that a known defect in one (or its
-         repair) never hides or excuses a difference in the other:
-         A = the request target (regions 1, 2); B = method, Host, headers, body, response (region 3) *)
-      match forward wire o q, up with
-      | Ok mu, Some u =>
-          let sameA := beq (up_target u) (up_target mu) in
-          let specA := beq (up_target u) (spec_target o (rq_target q)) in
-          let regionA := if region_strip_encoding o (rq_target q) then Some 1
-                         else if region_invalid_byte o (rq_target q) then Some 2 else None in
-          let vA := verdict sameA specA regionA true in
-          let no_target x := {| up_method := up_method x; up_target := []; up_host := up_host x;
-                                up_headers := up_headers x; up_body := up_body x |} in
-          let sameB := upstream_eqb (proj_up (no_target u)) (proj_up (no_target mu))
-                       && response_eqb (proj_resp drop cl) (proj_resp drop (respond ur)) in
-          let specB := spec_forward_rest o q u && spec_response drop ur cl in
-          let regionB := if wire && region_gzip_added q then Some 3 else None in
-          let vB := verdict sameB specB regionB true in
-          let bad v := (2 <=? v) && (v <=? 4) in
-          if bad vA then vA else if bad vB then vB
-          else if 100 <=? vA then vA else if 100 <=? vB then vB else v_agree
-      | Ok _, None => v_disagree_spec_fails   (* a routed request must reach its upstream *)
-      | _, _ => v_disagree   (* the harness only emits requests net/http accepted *)
-      end
+  | CFwd wire o q up ur cl => check_fwd wire o q up ur cl true true
+  | CFwd1xx o q up iu ur ic cl =>
+      let pr := map (proj_resp wire_resp_drop) in
+      let same_x := list_eqb response_eqb (pr ic) (pr (fst (respond_all iu ur))) in
+      (* spec: the same informational responses, in order, with the same status and headers *)
+      let spec_x := list_eqb (fun a b => (rs_status a =? rs_status b)%Z
+                                         && header_eqb (rs_headers a) (rs_headers b)) (pr ic) (pr iu) in
+      check_fwd true o q up ur cl same_x spec_x
   | CNoRoute status html contacted cl =>
       let m := noroute_response status html in
       let same := negb contacted && response_eqb cl m in
